@@ -89,6 +89,9 @@ class Contract:
         self.lemmas_at = kw.pop("lemmas_at", {})
         self.unroll = kw.pop("unroll", {})          # loop ordinal -> max iterations (bounded proof, P<=n)
         self.scenarios = kw.pop("scenarios", None)
+        self.assert_at = kw.pop("assert_at", {})   # anchor (first line of a statement) -> [clauses] proved right after that statement ("site" obligations: what holds at a decision site)
+        self.uses = kw.pop("uses", {})               # ensures label -> tags of the QUANTIFIED hypotheses its proof may use (all quantifier-free ones are kept); sound: fewer hypotheses
+        self.opaque_final_heap = kw.pop("opaque_final_heap", False)   # keep the named final-heap arrays opaque in reads (lemma-only sub-proofs rely on it)
         self.reads = kw.pop("reads", None)           # read frame: heap arrays the function may read (checked)  # list of dicts: extra requires per scenario (bounded structural cases)
         if kw:
             raise TypeError(f"contract {key}: unknown options {list(kw)}")
